@@ -26,10 +26,12 @@ CONSTANTS MaxArr,       \* number of arrays that may be allocated
           SmallCap,     \* smallBufferSize (64 in the code; small here)
           PayloadsM,    \* payloads written
           MaxOpsM,
-          DefectM       \* "none" | "accessor_in_place" | "take_keeps_array" | "string_aliases" : vacuity controls
+          DefectM       \* "none" | "accessor_in_place" | "take_keeps_array" | "string_aliases" | "nested_abandon" : vacuity controls
 
-VARIABLES heap, b, out, st, nops
-varsM == <<heap, b, out, st, nops>>
+\* loan: the Buffer struct as a nested printer holds it while SafePrinter.Print/Printf runs (np.buf = p.buf: a struct
+\* COPY that shares the array), <<>> when the buffer is not lent; nst: the value-level state of that nested buffer
+VARIABLES heap, b, out, st, nops, loan, nst
+varsM == <<heap, b, out, st, nops, loan, nst>>
 
 Nil == 0
 Cap(a) == IF a = Nil THEN 0 ELSE Len(heap.m[a])
@@ -39,7 +41,7 @@ Abs(x) == [buf |-> View(x), valid |-> x.valid, mode |-> x.mode, open |-> x.open]
 
 InitM == /\ heap = [m |-> [a \in 1..MaxArr |-> <<>>], u |-> {}]
          /\ b = [arr |-> Nil, len |-> 0, valid |-> 0, mode |-> MU, open |-> FALSE]
-         /\ out = {} /\ st = BInit /\ nops = 0
+         /\ out = {} /\ st = BInit /\ nops = 0 /\ loan = <<>> /\ nst = BInit
 
 Fresh(h) == (1..MaxArr) \ h.u
 Alloc(h, a, content) == [m |-> [h.m EXCEPT ![a] = content], u |-> h.u \cup {a}]
@@ -106,7 +108,7 @@ SetModeM(h, x, m) ==
 Enough(h) == Cardinality(Fresh(h)) >= 3        \* an operation allocates at most 3 arrays
 
 ---------------------------------------------------------------------------
-Step == nops < MaxOpsM /\ nops' = nops + 1 /\ Enough(heap)
+Step == nops < MaxOpsM /\ nops' = nops + 1 /\ Enough(heap) /\ loan = <<>> /\ UNCHANGED <<loan, nst>>
 
 DoWrite(p) == /\ Step
               /\ LET r == WriteM(heap, b, p) IN heap' = r[1] /\ b' = r[2]
@@ -143,20 +145,57 @@ DoReset == /\ Step
            /\ b' = [b EXCEPT !.len = 0, !.valid = 0, !.mode = MU, !.open = FALSE]
            /\ heap' = heap /\ out' = out /\ st' = BReset(st)
 
+(***************************************************************************)
+(* printer_adapter.go: pp.Print / pp.Printf lend the outer printer's       *)
+(* buffer to a nested printer.  The nested printer works on a struct copy  *)
+(* that shares the array: it may append beyond the outer length AND rewrite *)
+(* bytes below it (its first unsafe write takes back a closing marker).    *)
+(* The outer struct is frozen meanwhile; the loan ends with the struct     *)
+(* being handed back -- on the normal path and (since the repair of F10)   *)
+(* when a panic crosses the nested printer.  DefectM = "nested_abandon" is *)
+(* the code before the repair: the panic path drops the nested struct.     *)
+(***************************************************************************)
+NStep == nops < MaxOpsM /\ nops' = nops + 1 /\ Enough(heap) /\ loan # <<>> /\ UNCHANGED <<b, out, st>>
+
+DoLend == /\ nops < MaxOpsM /\ nops' = nops + 1 /\ loan = <<>>
+          /\ loan' = <<b>> /\ nst' = st /\ UNCHANGED <<heap, b, out, st>>
+
+DoNestedWrite(p) == /\ NStep
+                    /\ LET r == WriteM(heap, loan[1], p) IN heap' = r[1] /\ loan' = <<r[2]>>
+                    /\ nst' = BWrite(nst, p)
+
+DoNestedSetMode(m) == /\ NStep /\ m # loan[1].mode
+                      /\ LET r == SetModeM(heap, loan[1], m) IN heap' = r[1] /\ loan' = <<r[2]>>
+                      /\ nst' = BSetMode(nst, m)
+
+\* p.buf = np.buf (normal return, and the panic path after the repair)
+DoHandBack == /\ nops < MaxOpsM /\ nops' = nops + 1 /\ loan # <<>>
+              /\ b' = loan[1] /\ st' = nst /\ loan' = <<>> /\ UNCHANGED <<heap, out, nst>>
+
+\* before the repair: a panic crosses the nested printer and its struct is dropped; at the level of VALUES the outer
+\* buffer is what it was before the loan
+DoAbandon == /\ DefectM = "nested_abandon"
+             /\ nops < MaxOpsM /\ nops' = nops + 1 /\ loan # <<>>
+             /\ loan' = <<>> /\ UNCHANGED <<heap, b, out, st, nst>>
+
 NextM == \/ \E p \in PayloadsM : DoWrite(p)
          \/ \E m \in Modes : DoSetMode(m)
          \/ DoAccessor \/ DoTake \/ DoReset
+         \/ DoLend \/ DoHandBack \/ DoAbandon
+         \/ \E p \in PayloadsM : DoNestedWrite(p)
+         \/ \E m \in Modes : DoNestedSetMode(m)
 SpecM == InitM /\ [][NextM]_varsM
 
 ---------------------------------------------------------------------------
-\* the memory-level buffer implements the value-level one
-InvRefines == Abs(b) = st
+\* the memory-level buffer implements the value-level one (while it is lent the outer struct is frozen and unobserved;
+\* the nested struct implements the nested value-level state)
+InvRefines == IF loan = <<>> THEN Abs(b) = st ELSE Abs(loan[1]) = nst
 \* C13: what a caller obtained earlier is never modified by later operations
 InvResultsStable == \A r \in out : SubSeq(heap.m[r.arr], 1, r.len) = r.snap
 \* a result never shares its array with the live buffer
-InvNoAlias == \A r \in out : b.arr # r.arr
+InvNoAlias == \A r \in out : b.arr # r.arr /\ (loan # <<>> => loan[1].arr # r.arr)
 \* accessors are pure at the value level: finalizing a copy gives what the value model says
-InvAccessor == LET r == FinalizeM(heap, b) IN ViewIn(r[1], r[2]) = BOut(st)
+InvAccessor == loan = <<>> => LET r == FinalizeM(heap, b) IN ViewIn(r[1], r[2]) = BOut(st)
 
 PayloadsQ == {<<>>, <<97>>, <<NL>>, StartM, <<97, 98, 99, 100, 101>>}
 =============================================================================
